@@ -52,6 +52,19 @@ CHECKS = {
                 "(itself checked by C02), z3. Integer and rational environments are separate families; floats are exact reals.",
         "technique": SOLVER_TECH,
     },
+    "C04": {
+        "level": "model_checking",
+        "text": "Bounded exhaustive symbolic execution of structure (no value-level quantifier exists in this property): the set of "
+                "handlers a user mapper implements is one symbolic boolean per handler, the truth value returned by visit() one "
+                "symbolic boolean per designated node, the rewritten leaf a symbolic selector; the explorer forks on them with z3 "
+                "feasibility checks and a coverage query proves no assignment was skipped. Per path the observed handler "
+                "invocation / walk trace / rebuilt tree / collector fold / forwarded arguments are compared with an independent "
+                "specification, for 8 user class hierarchies and every node kind at depth 1-2 plus every constant in every slot.",
+        "design_ref": "DESIGN.md §4 C04",
+        "note": "Trusted: the harness's dispatch spec (first class in the MRO whose handler the mapper has) and its notion of a "
+                "node's children (expression-valued dataclass fields). Order among a node's children is not constrained.",
+        "technique": "bounded exhaustive symbolic execution of the real mappers; small-domain choices forked with z3 feasibility + coverage query; path assertions against an independent traversal spec",
+    },
     "C06": {
         "level": "translation_validation",
         "text": "Per-tree translation validation: for every (parent, slot, child) skeleton of the printable fragment, every "
